@@ -45,5 +45,19 @@ for cfg in ("E", "D"):
         for st in cd["statics"]:
             statics.setdefault(crate, {})[st["path"]] = st["ty"]
 res["__statics__"] = statics
+# callee fingerprints: what each function (with its closures) calls -- used to tell apart functions of equal signature when a
+# refactoring merges them behind a flag parameter and the loader splits them again
+callees = {}
+for cfg in ("E", "D"):
+    d, info = build.build(cfg)
+    f = Facts(d, info)
+    for p, fn in f.fns.items():
+        root = re.sub(r"(::\{closure#[^}]*\})+$", "", re.sub(r"#\d+$", "", p))
+        cs = callees.setdefault(fn.crate, {}).setdefault(root, set())
+        for blk in fn.blocks:
+            t = blk["term"]
+            if t["k"] == "call" and not blk["cleanup"]:
+                cs.add(t.get("decl") or t["callee"])
+res["__callees__"] = {c: {k: sorted(v) for k, v in sorted(m.items())} for c, m in sorted(callees.items())}
 json.dump(res, open(os.path.join(HERE, "rules", "known_fns.json"), "w"), indent=0)
 print({k: len(v) for k, v in out.items()})
